@@ -48,6 +48,8 @@ type redisProc struct {
 	u        *upstream
 	cmdHdlrs map[string]*commandHandler
 	wg       sync.WaitGroup
+	quitOnce sync.Once
+	quit     chan struct{}
 
 	cfg *config
 }
@@ -60,6 +62,7 @@ func newRedisProc(svcName string, svcCfg *service.Config, svcHosts []*host.Host,
 		stats:    stats,
 		logger:   logger,
 		cmdHdlrs: make(map[string]*commandHandler),
+		quit:     make(chan struct{}),
 	}
 
 	l, err := proc.NewListener(p.cfg.Listener, p.stats.Downstream, logger, p.handleConn)
@@ -174,6 +177,9 @@ func (p *redisProc) StopListen() error {
 }
 
 func (p *redisProc) Stop() error {
+	p.quitOnce.Do(func() {
+		close(p.quit)
+	})
 	p.l.Stop()
 	p.u.Stop()
 	p.wg.Wait()
@@ -182,6 +188,16 @@ func (p *redisProc) Stop() error {
 
 func (p *redisProc) handleConn(conn net.Conn) {
 	s := newSession(p, conn)
+	go func() {
+		select {
+		case <-p.quit:
+			// NOTE: Closing the conn by the listener is not enough, the session
+			// may be blocked by its full request queue while the backend is
+			// unresponsive, and doesn't read the conn at all.
+			s.Close()
+		case <-s.done:
+		}
+	}()
 	s.Serve()
 }
 
